@@ -317,8 +317,13 @@ func AfterQuery(db *gorm.DB) {
 		db.Statement.Clauses["FROM"] = fromClause
 	}
 	if db.Error == nil && db.Statement.Schema != nil && !db.Statement.SkipHooks && db.Statement.Schema.AfterFind && db.RowsAffected > 0 {
+		isArray := db.Statement.ReflectValue.Kind() == reflect.Array
 		callMethod(db, func(value interface{}, tx *gorm.DB) bool {
 			if i, ok := value.(AfterFindInterface); ok {
+				// an array keeps zero elements behind the rows that were read: no record, no hook
+				if isArray && int64(db.Statement.CurDestIndex) >= db.RowsAffected {
+					return true
+				}
 				db.AddError(i.AfterFind(tx))
 				return true
 			}
